@@ -51,6 +51,10 @@ def run(tier, seed):
         p2 = tuple(rng.randint(-5, 5) for _ in range(3))
         pairs.add((p1, rng.randint(1, 5), p2, rng.randint(1, 5)))
     pairs.add(((0, 0, 0), 1, (0, 0, 0), 1))
+    # axis-aligned rotations: integer matrices (quarter and half turns about the axes, three-fold about the body diagonal)
+    for pa, qa in (((1, 0, 0), 1), ((0, 0, 1), 1), ((0, 1, 0), 0), ((1, 1, 1), 1), ((0, -1, 0), 1)):
+        pairs.add(((0, 0, 0), 1, pa, qa))
+        pairs.add((pa, qa, (0, 0, 1), 1))
     pairs.add(((1, 2, -1), 2, (1, 2, -1), 2))
     # misorientations of exactly 0 and exactly 180 degrees with rounding noise in the matrices: (trace - 1)/2 lands a few ulp
     # outside [-1, 1] on either side.  Identical pairs (two-fold operators give -1), and U1 = 1 with U2 a half turn (Cayley q = 0)
@@ -121,6 +125,14 @@ def run(tier, seed):
             v.violation("Umis raised %r on proper rotations" % ex, desc)
             continue
         m = np.asarray(m)
+        # exact rotations typed as integers (the identity, the 24 axis-aligned ones): same answer as for the same numbers as floats
+        if np.array_equal(U1, np.rint(U1)) and np.array_equal(U2, np.rint(U2)):
+            try:
+                mi = np.asarray(symmetry.Umis(np.rint(U1).astype(int), np.rint(U2).astype(np.int64), cs), dtype=float)
+                if mi.shape != m.shape or not np.all(np.isfinite(mi)) or np.abs(np.cos(np.radians(mi[:, 1])) - np.cos(np.radians(m[:, 1]))).max() > 1e-9:
+                    v.violation("Umis on integer-typed rotation matrices differs from Umis on the same matrices as floats (crystal system %d)" % cs, desc)
+            except Exception as ex:
+                v.violation("Umis raised %r on integer-typed proper rotations" % ex, desc)
         if m.shape != (len(x["cos"]), 2):
             v.violation("Umis returned shape %s, expected (%d,2)" % (m.shape, len(x["cos"])), desc)
             continue
